@@ -180,7 +180,85 @@ def r05_4_5(ctx: Ctx):
                           key=f'R05.5::{rf.short}::callable')
                 if okf:
                     check_callable(ctx, cbs[0])
+                check_start_only_from_best(ctx, rf, p, e, x0, selfv)
     ctx.floor(rid, 'optimiser call sites in the local refinement', n, 1)
+
+
+START_OVERRIDES = {'initial_simplex': 'Nelder-Mead ignores x0 when options[\'initial_simplex\'] is given'}
+
+
+def _display_keys(rf: FuncInfo, disp_key):
+    """Constant keys of the dict display a ('display', lineno, values) atom was built from."""
+    if not (isinstance(disp_key, tuple) and disp_key and disp_key[0] == 'display'):
+        return None
+    out = {}
+    for nd in ast.walk(rf.node):
+        if isinstance(nd, ast.Dict) and nd.lineno == disp_key[1] and len(nd.values) == len(disp_key[2]):
+            for k, v in zip(nd.keys, disp_key[2]):
+                if isinstance(k, ast.Constant) and isinstance(k.value, str):
+                    out[k.value] = v
+            return out
+    return None
+
+
+def check_start_only_from_best(ctx: Ctx, rf: FuncInfo, p, call_ev, x0, selfv):
+    """R05.6: what the optimiser starts from is a function of the *current* best trial and of the configuration
+    only.  (a) No input of the optimiser call reads routine-owned instance state as it was on entry (state carried
+    over from an earlier refinement: a saved simplex, a cached start point).  (b) An option that overrides the start
+    must be computed from x0 in the same call."""
+    rid = 'R05.6'
+    ctx.rule(rid, 'the refinement starts from the current best trial only: no input of the optimiser call reads '
+                  'instance state left behind by an earlier refinement, and a start-overriding option '
+                  '(initial_simplex) is computed from x0 in the same call')
+    ci = p.events.index(call_ev)
+    before = p.events[:ci]
+    # attributes of self that the refinement routine itself writes (on any path): its carried state
+    own_written = set()
+    ex = ctx.explorer()
+    for q in C.normal_paths(ex.explore(rf)):
+        for s in q.stores():
+            if s.d['tkind'] == 'attr' and s.d['base'] is not None and key_of(s.d['base']) == key_of(selfv):
+                own_written.add(s.d['field'])
+    inputs = []       # (label, value)
+    for i, a in enumerate(call_ev.d['args']):
+        inputs.append((f'argument {i}', a))
+    for k, v in call_ev.d['kwargs'].items():
+        inputs.append((f'{k}=', v))
+    containers = {key_of(v): lbl for lbl, v in inputs if isinstance(key_of(v), tuple) and key_of(v)[:1] == ('display',)}
+    overrides = []    # (option name, value)
+    for lbl, v in list(inputs):
+        dk = _display_keys(rf, key_of(v))
+        for k2, v2 in (dk or {}).items():
+            if k2 in START_OVERRIDES:
+                overrides.append((k2, v2))
+    for s in before:
+        if s.kind == 'store' and s.d['tkind'] == 'sub' and s.d['base'] is not None and key_of(s.d['base']) in containers:
+            inputs.append((f'{containers[key_of(s.d["base"])]}[{s.d["field"]!r}]', s.d['value']))
+            fk = s.d['field']
+            fa = fk.single_atom() if isinstance(fk, RF) else fk
+            name = fa[1] if isinstance(fa, tuple) and fa[:1] == ('str',) else fa
+            if name in START_OVERRIDES:
+                overrides.append((name, s.d['value']))
+    carried = []
+    for lbl, v in inputs:
+        for a in C.atoms_deep(v):
+            if a[0] == 'attr' and len(a) == 4 and a[1] == key_of(selfv) and a[3] == 0 and a[2] in own_written:
+                carried.append((lbl, a[2]))
+    ctx.check(not carried, rid, rf.short, rf.loc(call_ev.node),
+              'no input of the optimiser call reads state carried over from an earlier refinement',
+              f'the optimiser call depends on instance state the refinement routine itself left behind in an earlier '
+              f'call ({sorted(set(carried))[:3]}): after the global search has moved the best trial the refinement '
+              f'no longer starts from it and its result can be worse than the best global-phase trial',
+              key=f'{rid}::{rf.short}::carried-state::{sorted(set(c[1] for c in carried))[0] if carried else ""}')
+    for name, v in overrides:
+        x0_atoms = C.atoms_deep(x0) if x0 is not None else set()
+        derived = x0 is not None and (C.mentions(v, C.strip_versions(key_of(x0))) or C.mentions(v, key_of(x0)) or
+                                      any(C.strip_versions(a) == C.strip_versions(key_of(x0)) for a in C.atoms_deep(v)))
+        ctx.check(derived, rid, rf.short, rf.loc(call_ev.node),
+                  f'option {name} is computed from x0',
+                  f'option {name!r} overrides the start of the local search ({START_OVERRIDES[name]}) and is not '
+                  f'computed from the best trial\'s point: the refinement can return a value worse than the best '
+                  f'global-phase trial', key=f'{rid}::{rf.short}::start-override::{name}')
 
 
 def check_callable(ctx: Ctx, fn: FuncInfo):
